@@ -97,6 +97,17 @@ class C10:
                 pre.append(["add", "T%d pre" % st["tasks"], rng.choice([10, 100]), rng.random() < 0.9])
         for _ in range(nops):
             ops.append(self._gen_op(rng, kind, cfg, st))
+        if kind == "progress" and rng.random() < 0.3 and st["alive"] + 3 <= H - 1:
+            # the frame gets narrower *and* taller: the widest row goes away (hidden, removed or
+            # renamed) and then more rows appear than the display ever had
+            st["tasks"] += 1
+            wide_i = st["tasks"] - 1
+            ops.append(["add", "T%d a much longer job" % st["tasks"], 100, True])
+            ops.append(rng.choice([["upd", wide_i, {"visible": False}], ["remove", wide_i], ["upd", wide_i, {"description": "T%d s" % st["tasks"]}]]))
+            for _ in range(2):
+                st["tasks"] += 1
+                ops.append(["add", "T%d x" % st["tasks"], 3, True])
+            ops.append(rng.choice([["refresh"], ["print", self._gen_print(rng, st, cfg)]]))
         if kind in ("live", "status") and rng.random() < 0.25:
             # operations on a display that has not been started yet (refresh / update / print /
             # status text before the block is entered)
